@@ -22,7 +22,10 @@ BADKINDS = {'fail': [['fail'], 1, 0], 'error': [[{'a': 'error'}], 0, 1],
 
 
 def norm(s):
-    return WS.sub(' ', s).strip()
+    # what the protocol must do to a name to keep it on one line: each line feed and
+    # carriage return becomes a blank, the ends are stripped; everything else - runs of
+    # blanks, tabs, other separators - has to arrive as it is
+    return re.sub('[\r\n]', ' ', s).strip()
 
 
 def make_world(wid, rng, nbad, spelling, npass=2):
@@ -135,6 +138,17 @@ def gen_cases(rng, tier):
                 tid = rng.choice(w['classes']['TA']['tests'])
                 w['tests'][tid] = {pl.split('-')[1]: [crash]}
             add('d%d' % n, w, 'die:' + pl)
+    # ... after writing text to fd 2 that the parent's stdout cannot encode (the parent
+    # quotes the child's stderr in its "Could not communicate" message at -v / -vv)
+    for how, verb in (('exit3', ['-v']), ('kill', ['-vv'])):
+        n += 1
+        w = make_world('a%d' % n, rng, 0, 'plain')
+        tid = w['classes']['TA']['tests'][0]
+        w['tests'][tid] = {'body': [{'a': 'write', 'tok': 'Fehler: Datei nicht gefunden - caf\u00e9 \u2603', 'stream': 'stderr',
+                                     'via': 'fd', 'only_child': True},
+                                    {'a': 'crash', 'how': how, 'only_child': True}]}
+        w['env'] = {'parent_ioencoding': 'ascii'}
+        add('a%d' % n, w, 'die:unencodable-noise', extra_args=verb[1:] and ['-v'] or [])
     # ... or by an exception unwinding the stack from a layer hook
     for pl in ('layer-setUp', 'layer-tearDown'):
         for how in ('sysexit0', 'sysexit', 'memerr', 'kbint'):
@@ -220,8 +234,19 @@ def record(case, res, ref):
     rep = res['report']
     fids, foth, fsub = resolve(rep['failures'])
     eids, eoth, esub = resolve(rep['errors'])
+    if fate == 'completed' and sum(expf.values()) + sum(expe.values()) > 0 and \
+            ''.join(e.get('lost', '?') for e in cev if e['e'] == 'ReportCut') == '\n':
+        # don't-care zone: the report lost nothing but the line end of its last NAME.  The
+        # parent cannot tell a complete last name from a truncated one and may treat the
+        # report as cut short (one error for the layer, no names) or as complete; the record
+        # carries the fate that goes with what the parent did, the clauses of that fate apply
+        if fsub + esub:
+            fate = 'cut'
     crashed = ''
-    if not res.get('timed_out') and (res['rc'] not in (0, 1) or 'Traceback (most recent call last)' in res.get('stderr', '')):
+    # (a traceback of a parent worker thread - "Exception in thread" - is not an abort of the run)
+    perr = re.sub(r'Exception in thread [^\n]*\nTraceback \(most recent call last\):\n(?:[ \t][^\n]*\n)*[^\n]*',
+                  '', res.get('stderr', ''))
+    if not res.get('timed_out') and (res['rc'] not in (0, 1) or 'Traceback (most recent call last)' in perr):
         crashed = 'rc=%s' % res['rc']
     # tests of the in-process layer of a resume world are not the channel's business
     if case.get('resume'):
@@ -267,7 +292,11 @@ def run(chk, tier, seed, replay=None):
                 chk.machinery('%s did not produce a counterexample' % cfg)
         cases = gen_cases(rng, tier)
     refs = runlib.compute_refs([c['world'] for c in cases])
-    results = runlib.run_cli_many([(c['world'], c['args'], {'timeout': 60}) for c in cases])
+    results = runlib.run_cli_many([(c['world'], c['args'],
+                                    {'timeout': 60,
+                                     'env_extra': ({'PYTHONIOENCODING': c['world']['env']['parent_ioencoding']}
+                                                   if c['world'].get('env', {}).get('parent_ioencoding') else None)})
+                                   for c in cases])
     recs = [record(c, r, ref) for c, r, ref in zip(cases, results, refs)]
     chk.sample({'family': cases[0]['fam'], 'args': cases[0]['args'], 'record': recs[0]})
     fd, path = tempfile.mkstemp(prefix='verif-chan-', suffix='.json')
